@@ -19,12 +19,18 @@ CHECKS = {
    technique="bounded-exhaustive enumeration of annotation-kind subsets x counts x sheet layouts x sheet operations and of text channels x special strings; oracle = pre-save annotation dump equals post-reload dump keyed by cell",
    text="Each of 19 annotation kinds alone, every pair of kinds at every count combination {1,2,12}, all kinds at once, on 1- and 3-sheet workbooks, with sheet removal/rename/active-tab operations before save, plus every annotation text channel x 12 special strings; the annotation dump keyed by cell/range must be identical after reload.",
    note="Trusted: public getters. Defined names are compared by scope (global / sheet), not by the object that happens to hold them."),
+ "C16": dict(level="model_checking", engine="E3", design="3 C16, 9.2",
+   technique="stateless model checking of real threads: cooperative scheduler at hook points, DFS over schedules with iterative preemption bounding (complete for 2 savers)",
+   text="Real OS threads run the real write_writer on shared/cloned workbooks; a hook before every shared-string-table lock operation parks the thread, the explorer owns the run token and enumerates ALL interleavings of 2 savers and all interleavings with <=2 (quick) / <=3 (thorough) preemptions of 3 savers; every saver's output of every schedule is reloaded and compared with its own workbook; deadlocks surface through a 20 s quiescence horizon, panics are verdicts; schedules are replayable and replay divergence is a machinery error.",
+   note="Assumes shared state is touched only inside lock-protected sections between hook points (checked: every lock site in /repo/src must be preceded by a hook call, else exit 2). Memory-ordering effects below lock granularity are not modelled."),
  "C17": dict(level="exploration", engine="E1", design="3 C17",
    technique="bounded-exhaustive enumeration (complete finite domain) with independent reference codec",
    text="Complete enumeration of the finite codec domains (all columns, all 1-3 letter names, every row x boundary columns x lock patterns, all range shapes over boundary corners, all legal sheet names of <=3 atoms) against an independent base-26/quoting reference; the domain is finite, so exhaustion settles the property inside the stated sheet-name bound.",
    note="Trusted: the harness's 10-line bijective base-26 numeral and its quoted-address parser. Sheet names beyond 3 atoms only via five 31-character boundary names."),
 }
 ENGINES=[
+ {"name":"E3","path":"harness/src/c16.rs","serves_properties":["C16"],"kind_free_text":"cooperative scheduler over real threads (hook H1 in /repo, cfg umya_verif), DFS over choice sequences, preemption bounding, replay with divergence detection"},
+ {"name":"P","path":"pyref/xlsx_ref.py","serves_properties":["C02","C03","C05","C11"],"kind_free_text":"independent OPC/SpreadsheetML validator + decoder, Python stdlib only"},
  {"name":"E1","path":"harness/src/pool.rs","serves_properties":[k for k,v in CHECKS.items() if v["engine"].startswith("E1")],"kind_free_text":"bounded-exhaustive input enumerator: deterministic indexed case spaces sharded over worker processes with per-case watchdog (hang/crash attribution)"},
 ]
 hook_commits=[l.strip() for l in open('/verif/hook_commits.txt')] if __import__('os').path.exists('/verif/hook_commits.txt') else []
